@@ -7,6 +7,8 @@ package main
 import (
 	"fmt"
 	"math"
+	"os"
+	"path/filepath"
 	"reflect"
 	"runtime"
 	"sort"
@@ -15,6 +17,7 @@ import (
 	"time"
 
 	"lunar/engine/actions"
+	"lunar/engine/config"
 	lunarMessages "lunar/engine/messages"
 	"lunar/engine/services/remedies"
 	"lunar/engine/utils"
@@ -162,6 +165,58 @@ func parsePP(word string) (map[string]string, bool) {
 	return m, true
 }
 
+// throttlingFromYAML sends the configuration through the production loader (and, for the persisted copy, through
+// the production writer and the loader again) and returns what the engine would run with.
+func throttlingFromYAML(c sharedConfig.ResponseBasedThrottlingConfig, ty string, persisted bool) (*sharedConfig.ResponseBasedThrottlingConfig, string) {
+	dir, err := os.MkdirTemp("", "c12-policies")
+	if err != nil {
+		panic(err)
+	}
+	defer os.RemoveAll(dir)
+	quote := func(x string) string {
+		return `"` + strings.NewReplacer(`\`, `\\`, `"`, `\"`).Replace(x) + `"`
+	}
+	sts := make([]string, len(c.RelevantStatuses))
+	for i, x := range c.RelevantStatuses {
+		sts[i] = strconv.Itoa(x)
+	}
+	y := "endpoints:\n  - url: a.com/x\n    method: GET\n    remedies:\n      - name: provider throttling\n        enabled: true\n" +
+		"        config:\n          response_based_throttling:\n            retry_after_header: " + quote(c.RetryAfterHeader) + "\n"
+	switch ty {
+	case "rel":
+		y += "            retry_after_type: relative_seconds\n"
+	case "abs":
+		y += "            retry_after_type: absolute_epoch\n"
+	}
+	y += "            relevant_statuses: [" + strings.Join(sts, ", ") + "]\n"
+	file := filepath.Join(dir, "policies.yaml")
+	if err := os.WriteFile(file, []byte(y), 0o600); err != nil {
+		panic(err)
+	}
+	pick := func(p *sharedConfig.PoliciesConfig) *sharedConfig.ResponseBasedThrottlingConfig {
+		if p == nil || len(p.Endpoints) != 1 || len(p.Endpoints[0].Remedies) != 1 {
+			return nil
+		}
+		return p.Endpoints[0].Remedies[0].Config.ResponseBasedThrottling
+	}
+	loaded, err := config.ReadPoliciesConfig(file)
+	if err != nil || pick(loaded) == nil {
+		return nil, "err:load"
+	}
+	if !persisted {
+		return pick(loaded), "ok"
+	}
+	copyFile := filepath.Join(dir, "loaded-policies.yaml")
+	if err := config.WritePoliciesConfig(copyFile, loaded); err != nil {
+		return nil, "err:persist"
+	}
+	reloaded, err := config.ReadPoliciesConfig(copyFile)
+	if err != nil || pick(reloaded) == nil {
+		return nil, "err:reload"
+	}
+	return pick(reloaded), "ok"
+}
+
 func cachingConfig(ttl8, maxrec, maxb int64, paths string) sharedConfig.CachingConfig {
 	if ttl8 > 1<<23 || ttl8 < -(1<<23) || maxb >= 1<<24 {
 		panic("harness: ttl8/maxb outside the exactly representable range")
@@ -277,6 +332,19 @@ func (e *env) cfg(w []string) string {
 		}
 		e.tcfg.RetryAfterHeader = hdr
 		e.hdr = hdr
+		// where the remedy configuration comes from: a Go struct, the operator's policies YAML read by
+		// config.ReadPoliciesConfig, or the gateway's own persisted copy (WritePoliciesConfig -> ReadPoliciesConfig,
+		// what a revert to the last loaded policies reads)
+		if src, ok := proto.KV(w[2:], "src"); ok && src != "struct" {
+			if src != "yaml" && src != "persisted" {
+				return "bad-op"
+			}
+			loaded, ans := throttlingFromYAML(e.tcfg, ty, src == "persisted")
+			if loaded == nil {
+				return ans
+			}
+			e.tcfg = *loaded
+		}
 		e.clk = detclock.NewManual(t0)
 		e.tp = remedies.NewResponseBasedThrottlingPlugin(e.clk)
 	default:
@@ -517,17 +585,23 @@ func (e *env) pluginOp(w []string) string {
 			return "noop"
 		case *actions.EarlyResponseAction:
 			e.cnt(e.mode + "-replay")
+			// the replay is observed where it leaves the engine: the SPOE variables of ReqToSpoeActions, the header
+			// dump read as lunar.lua reads it (one header per line, name and value separated by the first ':')
+			status, body, headers, okView := spoeView(a)
+			if !okView {
+				return "early-without-spoe-variables"
+			}
 			// header names are case-insensitive for the observer: report the value whatever the case of its name
-			tag, hasTag := foldGet(a.Headers, "X-Tag")
-			ra, hasRa := foldGet(a.Headers, e.hdr)
-			extra := len(a.Headers)
+			tag, hasTag := foldGet(headers, "X-Tag")
+			ra, hasRa := foldGet(headers, e.hdr)
+			extra := len(headers)
 			if hasTag {
 				extra--
 			}
 			if hasRa {
 				extra--
 			}
-			out := fmt.Sprintf("early st=%d body=%s tag=%s", a.Status, proto.Enc(a.Body), optEnc(tag, hasTag))
+			out := fmt.Sprintf("early st=%d body=%s tag=%s", status, proto.Enc(body), optEnc(tag, hasTag))
 			done := false
 			if e.mode == "throttle" && e.tcfg.RetryAfterType == sharedConfig.RetryAfterRelativeSeconds && hasRa {
 				if f, err := strconv.ParseFloat(ra, 64); err == nil && math.Abs(f) < 1e6 {
@@ -552,6 +626,38 @@ func (e *env) pluginOp(w []string) string {
 
 // exec runs one case; if the process could not be brought to quiescence (machine overloaded) the case is
 // run again from scratch, and a persistent failure is reported loudly instead of producing unreliable answers.
+// spoeView decodes what an early response hands to the proxy.
+func spoeView(a *actions.EarlyResponseAction) (status int, body string, headers map[string]string, ok bool) {
+	headers = map[string]string{}
+	seen := 0
+	for _, act := range a.ReqToSpoeActions() {
+		switch act.Name {
+		case actions.StatusCodeActionName:
+			if v, isInt := act.Value.(int); isInt {
+				status = v
+				seen |= 1
+			}
+		case actions.ResponseBodyActionName:
+			if v, isBytes := act.Value.([]byte); isBytes {
+				body = string(v)
+				seen |= 2
+			}
+		case actions.ResponseHeadersActionName:
+			if v, isString := act.Value.(string); isString {
+				for _, line := range strings.Split(v, "\n") {
+					if line == "" {
+						continue
+					}
+					name, value, _ := strings.Cut(line, ":")
+					headers[name] = value
+				}
+				seen |= 4
+			}
+		}
+	}
+	return status, body, headers, seen == 7
+}
+
 // foldGet looks a header up ignoring the letter case of its name (exact name first; then the smallest matching key).
 func foldGet(h map[string]string, name string) (string, bool) {
 	if v, ok := h[name]; ok {
